@@ -34,6 +34,11 @@ CHECKS = {
    technique="deterministic simulation: full chain + real resolver on fake clock (hours to days); scripted withdrawal/re-pointing at the parent while the old child stays alive; lease model over delivered referrals as oracle",
    text="Seeded search over delegation TTL combinations (1 s to 3 d, crossing the 12 h ceiling), signed/unsigned, withdrawal or re-pointing time, old-child behaviours (long TTLs, own NS set and glue padded into every answer), prefetch-hot question schedules and referral-path latency. Every referral delivered to sdns grants a lease; for questions arriving after the last lease to the old servers ended no old-child record may be served, no packet may reach the old servers, and the reply must equal the parent's current data.",
    note="Trusts the generation tags in rdata and the lease model (ancestor bound taken generously). Questions arriving within 50 ms of the lease end are not judged."),
+ "C07": dict(
+   level="exploration", design="§3 C07",
+   technique="deterministic simulation: full chain + real resolver over simulated network with an adversarial authoritative server and spoofed datagrams; ground truth + provenance marks + dial log as oracle",
+   text="Seeded search over unsigned hierarchies in which one zone's legitimately authoritative servers apply subsets of 11 adversarial behaviours (out-of-zone records in every section, CNAME continued out of zone, sideways/upward/self/mixed referrals, loopback or out-of-zone glue) while wrong-ID / wrong-question datagrams are injected ahead of genuine replies; histories alternate trigger questions under that zone with questions for victim names. Victim replies must equal ground truth, attacker-marked data must never be attached to a name outside the zone, no loopback/local dial, no victim question to the attacker's address.",
+   note="DNSSEC is off so only bailiwick rules protect the victim. Names inside the adversary's zone are not judged. Adversary and ancestors never share a server (it would then speak with the ancestor's authority)."),
 }
 
 NOT_APPLICABLE = {
